@@ -9,4 +9,8 @@ SuggNames == {<<"a","b","c","d">>, <<"d","c","b","a","a">>}
 SigmaS == {"a", "b", "c", "d"}
 AliasNone == {<<>>}
 AliasQ2 == {<<>>, <<"a">>}
+\* longer patterns: text on both sides of the star (overlapping when the star is empty), two stars, dots
+SigmaW == {"a", ".", "*"}
+WildNames == {<<"a","*","a">>, <<"a",".","*",".","a">>, <<"*","a","*">>, <<"a","*","*">>, <<"a","a">>, <<"a",".","a">>, <<"*">>, <<"a","*",".","a">>}
+AliasW == {<<>>, <<"a",".","a">>, <<"a">>}
 ====
